@@ -205,7 +205,7 @@ CLAIMS["C20"] = {
             "datetime -> FormatDateTime, list -> FormatList, currency -> FormatCurrency, the plain formatter -> nothing) -- "
             "nothing missing and nothing spurious, for every tree (any number of keys, any nesting depth, any set of "
             "formatters); TranslationsInfos::get_icu_keys_inner does so over every namespace (or the single un-namespaced "
-            "tree), and the set get_icu_keys hands to the key tables (its first two statements, lifted verbatim, rule E3) holds "
+            "tree) and terminates (decreases on the tree), and the set get_icu_keys hands to the key tables (its first two statements, lifted verbatim, rule E3) holds "
             "exactly those options, starting from the empty set.",
     "note": "Not covered: how VarInfo.range_count / formatters are accumulated across locales and through foreign keys (the "
             "accumulator side is C08's get_keys / push_var / push_count contracts), get_keys / Options::into_data_keys (the "
@@ -214,7 +214,7 @@ CLAIMS["C20"] = {
             "the text of iter_vars is pinned), I5 (`in &set` -> `in set.iter()`), K2 (`P => continue` arm of a let-match "
             "-> guard match with the remaining statements in the other arm, the duplicated arm proved dead). Assumed: vstd's "
             "BTreeMap / BTreeSet iterator and HashSet::insert specs, lawfulness of the derived Ord of Key / Formatter and of "
-            "the derived Hash/Eq of Options. Termination of the recursion is not proved (exec_allows_no_decreases_clause).",
+            "the derived Hash/Eq of Options.",
     "design_ref": "DESIGN.md section 8.20",
 }
 
